@@ -80,6 +80,11 @@ def make_input(rng, kind=None):
         fr = rng.choice(("pentamine", "hexamine", "triamine")) if kind == "polyamine" else rng.choice(sorted(fragments.FRAGMENTS))
         frag, expect, d = fragments.place_near(recs, fr, rng, dist_A=rng.uniform(3.0, 9.0))
         if frag:
+            if rng.random() < 0.6:
+                # docking tools call every ligand LIG / UNL: chemically different ligands of
+                # successive inputs then share residue and atom names
+                for a in frag:
+                    a.resn = "LIG"
             recs = recs + frag
     return pdbio.dump(recs), {"input": kind, "atoms": len(pdbio.atoms(recs))}
 
@@ -206,7 +211,10 @@ def run_history(case, rng, viol, counts, classes):
     import propka.run
     from .. import obs, util
     ninputs = rng.choice((2, 3, 3, 4))
-    inputs = [make_input(rng) for _ in range(ninputs)]
+    if rng.random() < 0.25:
+        inputs = [make_input(rng, "ligand") for _ in range(ninputs)]      # a series of ligand complexes
+    else:
+        inputs = [make_input(rng) for _ in range(ninputs)]
     # the pool of (input, options) pairs; some are used twice
     pool = []
     for i, (text, d) in enumerate(inputs):
@@ -238,6 +246,17 @@ def run_history(case, rng, viol, counts, classes):
             # change the working directory and the heap between calls
             wd = os.path.join(util.worker_tmp(), "wd%d" % rng.randrange(4))
             os.makedirs(wd, exist_ok=True)
+            if wd.endswith(("wd1", "wd3")) and not os.path.exists(os.path.join(wd, "propka.cfg")):
+                # a hostile working directory: left-over files with the names the package uses
+                decoy = util.read_cfg_lines()
+                decoy = [l.replace("model_pkas ASP  3.80", "model_pkas ASP  4.90").replace("Nmin	      			    280", "Nmin 100")
+                         for l in decoy]
+                with open(os.path.join(wd, "propka.cfg"), "w") as fh:
+                    fh.write("\n".join(decoy) + "\nmodel_pkas GLU 5.50\n")
+                with open(os.path.join(wd, "protein_bonds.json"), "w") as fh:
+                    fh.write("{}")
+                with open(os.path.join(wd, "case.pdb"), "w") as fh:
+                    fh.write("ATOM      1  N   LYS A   1       0.000   0.000   0.000  1.00  0.00\n")
             os.chdir(wd)
             junk(rng)
             ropts = realise(o)
